@@ -111,13 +111,13 @@ ASSUMPTIONS = ["Spec/Panics.lean is a faithful transcription of the rustdoc (it 
                "the harness address-space cap (4 GiB) turns allocation failure into the documented `out of memory` panic",
                "per-case CPU-time limit (20 s quick, 120 s thorough; 6x for the termination stream) distinguishes termination from non-termination for the generated sizes"]
 LEVEL_TEXT = ("PARTIAL. Lean 4 theorems: the transcription of the documentation is total and only names documented kinds; the entry "
-              "guards of 153 of the 157 operations (mirrored from the code) are equivalent to it (pow / from_chunks reservations: implications S1, S2 + counterexamples; regenerated from source, Tie A); two loops whose termination is the "
-              "question are modelled with fuel and their (non-)termination is proved. The rest of the public API (157 ops in total) is "
+              "guards of 153 of the 157 operations (mirrored from the code) are equivalent to it (pow / from_chunks reservations: implications S1, S2 + counterexamples; regenerated from source, Tie A); the loops whose termination is the "
+              "question (see REFINED) are modelled with fuel and their (non-)termination is proved. The rest of the public API (157 ops in total) is "
               "decided by correspondence only: each call runs in a supervised worker (panic capture, CPU-time limit, address-space cap) in "
               "the debug build and, in the thorough tier, the release build, and its outcome class is compared with the transcription.")
 LEVEL_NOTE = ("Trusted: Lean kernel; axioms propext/Classical.choice/Quot.sound; the transcription of the rustdoc; the harness, its "
               "watchdog and classify_panic table. Operator impls of integers in every primitive form are covered by group `forms` "
-              "(C15, 1720 impls, panic kinds compared) and are not repeated. Termination is proved only for the two modelled loops.")
+              "(C15, 1720 impls, panic kinds compared) and are not repeated. Termination is proved only for the modelled loops (farey, ln series, exp Maclaurin, iacoth, ilog fixing, remove stage 1, pow bit loop).")
 TECHNIQUE = "Lean 4 transcription of the documentation + guard-equivalence/termination theorems + supervised differential run (debug and release)"
 THEOREMS = ["Dashu.Props.C16." + t for t in (
     "documented_is_total documented_never_undocumented kind_names_agree kind_names_distinct ubig_sub_guard "
@@ -262,7 +262,8 @@ def int_cases(rng, tier):
                 continue
             # a >= 3-word base with an impossible exponent runs until memory is exhausted (finding
             # pow_large_base_no_precheck, CPU-limit `hang`): one such case per tier besides the corpus witness
-            if x == (1 << 200) + 1 and e >= 2 ** 38 and not (e == 2 ** 57 if tier == "quick" else e in (2 ** 40, 2 ** 57, M)):
+            # (quick: the corpus witness `u.pow (2^200+1) 2^57` is the one such case — each costs the whole CPU limit)
+            if x == (1 << 200) + 1 and e >= 2 ** 38 and not (tier != "quick" and e in (2 ** 40, 2 ** 57, M)):
                 continue
             yield Case("u.pow", [hx(x), D(e)]); yield Case("i.pow", [hx(-x), D(e)])
     for x in (0, 1, 4, 8, 27, (1 << 200) + 5, -1, -4, -8, -27, -((1 << 200) + 5)):
@@ -475,7 +476,8 @@ def ratio_cases(rng, tier):
     # the Farey walk is linear in `limit` (theorem farey_needs_limit_steps): large limits are the finding
     # measured: 1.6 s CPU at limit 10^8, 3.1 s at 2*10^8 (x = 1/3): limits of 2^64 and beyond never return
     yield Case("q.next_up", [hx(1), hx(3), "k:R", hx(10 ** 7)]); yield Case("q.nearest", [hx(1), hx(1 << 200), "k:R", hx(10 ** 6)])
-    yield Case("q.next_up", [hx(1), hx(1 << 200), "k:R", hx(M)])
+    if th:      # quick: corpus/C16/farey_linear.case is the one never-returning walk (each costs the whole CPU limit)
+        yield Case("q.next_up", [hx(1), hx(1 << 200), "k:R", hx(M)])
     if th:
         yield Case("q.nearest", [hx(1), hx(1 << 200), "k:R", hx(M)]); yield Case("q.next_down", [hx(1), hx(3), "k:R", hx(10 ** 20)])
         yield Case("q.next_up", [hx(-1), hx(10 ** 8 + 1), "k:R", hx(10 ** 20)])
@@ -741,7 +743,7 @@ def round5_cases(rng, tier):
     for (base, ok_e, bad_e) in ((2, (-2 ** 20, -2 ** 30), (-2 ** 36, -2 ** 40, -2 ** 61)), (10, (-2 ** 16, -2 ** 20), (-2 ** 32, -2 ** 40, -2 ** 61))):
         for e in ok_e + bad_e:
             for (sg, p) in ((1, 10), (-3, 2), (7, 40)):
-                if e in bad_e and not th and (sg, p) != (1, 10):
+                if e in bad_e and (sg, p) != (1, 10):
                     continue
                 yield Case("f.exp", [F(base, sg, e, p)]); yield Case("f.exp_m1", [F(base, sg, e, p)])
                 if sg > 0:      # (the transcription of ln_1p's domain test x <= -1 evaluates B^-exp for negative x)
@@ -1090,7 +1092,11 @@ def float_precision_usize_overflow(args, impl, model):
     # unchecked: debug builds panic with an arithmetic overflow although the (exact) result exists
     prec = max(_F(a)["prec"] for a in args if a.startswith("f:"))
     site = any(f in impl for f in ("float/src/mul.rs", "float/src/add.rs", "float/src/exp.rs"))
-    return model == "ok" and site and "with_overflow" in impl and prec > M // 3
+    if model == "ok" and site and "with_overflow" in impl and prec > M // 3:
+        return True
+    # release builds wrap `precision + 1` / `digits_ub + 1 + rnd_precision` (add.rs) and then ask for an alignment shift of
+    # about usize::MAX digits: the call ends in an allocation panic although the exact sum is short
+    return model == "ok" and prec >= M - 200 and impl in ("panic AllocTooMuch", "panic OutOfMemory")
 
 
 @_kf
